@@ -1,4 +1,147 @@
 (* C08 — only vars and explicitly passed pointers can be mutated.
-   (Model/Mutability.v and its theorems are delivered separately; until they are
-   installed this file only records the property.) *)
-From PV Require Import Base.Common.
+   Model: Model/Mutability.v (src/alpha/analyzer/mutability.rs,
+   src/alpha/analyzer/function_calls.rs, analyze_assignment_steps of
+   src/alpha/typer.rs); proofs: Proofs/MutabilityProofs.v.  The model is tied to
+   the real analyzers on the typed tree of thousands of programs on every run. *)
+From Coq Require Import List NArith.
+From PV Require Import Base.Common Model.Mutability Proofs.MutabilityProofs.
+Import ListNotations.
+
+(* An assignment is accepted iff its target is writable: the base is a mutable
+   variable, or the reference chain crosses a pointer. *)
+Theorem C08_assignment_iff : forall v r x,
+  r_base r = Some x -> check_assignment v r = [] <-> writable v r = true.
+Proof. exact assignment_iff. Qed.
+
+Theorem C08_assignment_complete : forall v r x,
+  r_base r = Some x -> lookup v x <> None ->
+  writable v r = false -> check_assignment v r = [E530].
+Proof. exact assignment_complete. Qed.
+
+(* Parameters and constants are immutable. *)
+Theorem C08_params_are_immutable : forall ps v x,
+  Forall (fun p => p_type p <> None) ps ->
+  In (Some x) (map p_name ps) ->
+  lookup (declare_params v ps) x = Some false.
+Proof. exact params_are_immutable. Qed.
+
+Theorem C08_constant_is_immutable : forall v x t,
+  lookup (fst (mut_decl v (DConstant x (Some t)))) x = Some false.
+Proof. exact constant_is_immutable. Qed.
+
+(* Writing through an immutable base is accepted only across a value of pointer
+   type: by-value parameters, constants and views (of arrays, of structures)
+   cannot be written through (E530). *)
+Theorem C08_param_write_needs_pointer : forall v mt x t t' ss ad,
+  lookup v x = Some false ->
+  chain_type mt t ss = Some t' ->
+  check_assignment v (Ref (Some x) ss ad) = [] ->
+  exists pre s post tp,
+    ss = pre ++ s :: post /\ crosses_pointer pre = false /\
+    is_pointer_step s = true /\ chain_type mt t pre = Some tp /\
+    is_pointer_type tp = true.
+Proof. exact param_write_needs_pointer. Qed.
+
+Theorem C08_view_is_readonly_typed : forall v mt x t t' ss ad,
+  lookup v x = Some false ->
+  pointer_free t = true -> chain_type mt t ss = Some t' ->
+  check_assignment v (Ref (Some x) ss ad) = [E530].
+Proof. exact view_is_readonly_typed. Qed.
+
+(* Taking the address of something immutable is rejected too. *)
+Theorem C08_address_of_immutable_rejected : forall v x ss ad,
+  lookup v x = Some false -> (0 < ad)%N -> crosses_pointer ss = false ->
+  check_address_taken v (Ref (Some x) ss ad) = [E530].
+Proof. exact address_of_immutable_rejected. Qed.
+
+(* Whole arrays, views and structures cannot be copied (E531, E532, E533),
+   except as the immediate argument of a call. *)
+Theorem C08_no_aggregate_copy : forall imm t,
+  check_value_use imm (POk t) =
+  match aggregate_code t with
+  | Some c => if imm then [] else [c]
+  | None => []
+  end.
+Proof. exact no_aggregate_copy. Qed.
+
+Theorem C08_declaration_copy_rejected : forall x r t c ty,
+  aggregate_code t = Some c ->
+  In c (snd (fc_stmt (SDeclaration x (Some (EDeref r (POk t))) ty))).
+Proof. exact declaration_copy_rejected. Qed.
+
+Theorem C08_assignment_copy_rejected : forall r0 r t c,
+  aggregate_code t = Some c ->
+  In c (snd (fc_stmt (SAssignment r0 (EDeref r (POk t))))).
+Proof. exact assignment_copy_rejected. Qed.
+
+Theorem C08_return_copy_rejected : forall ss r t c,
+  aggregate_code t = Some c ->
+  In c (fc_body {| fb_statements := ss; fb_return := Some (EDeref r (POk t)) |}).
+Proof. exact return_copy_rejected. Qed.
+
+(* An accepted call has arguments of exactly the parameter types: a pointer
+   parameter never receives the pointee itself - the caller must write `&`. *)
+Theorem C08_accepted_call_types_match : forall ps args,
+  use_function ps args = None ->
+  length ps = length args /\
+  forall i p d a pt, nth_error ps i = Some p -> nth_error args i = Some (d, POk a) ->
+    p_type p = Some pt -> p_name p <> None -> mty_eqb pt a = true.
+Proof. exact accepted_call_types_match. Qed.
+
+Theorem C08_pointer_parameter_needs_address : forall ps args i p d t,
+  use_function ps args = None ->
+  nth_error ps i = Some p -> p_type p = Some (MPointer t) -> p_name p <> None ->
+  nth_error args i <> Some (d, POk t).
+Proof. exact pointer_parameter_needs_address. Qed.
+
+(* Whole functions: if the mutability pass accepts a function, EVERY assignment
+   target and every address-of in its body (at any depth, including inside index
+   expressions) is writable. *)
+Theorem C08_function_sound : forall v ps b v',
+  mut_decl v (DFunction ps (Some b)) = (v', []) ->
+  Forall (fun st => site_ok st = true) (body_sites (declare_params v ps) b).
+Proof. exact function_sound. Qed.
+
+(* The first-pointer shortcut of needs_outer_mutability agrees with the strict
+   reading (the LAST indirection decides) on well-typed chains. *)
+Theorem C08_strict_agrees : forall v mt x t t' ss ad,
+  mtab_ok mt = true ->
+  is_wellformed t = true ->
+  chain_type mt t ss = Some t' ->
+  (lookup v x = Some true -> is_view_type t = false) ->
+  writable v (Ref (Some x) ss ad) = writable_strict v (Ref (Some x) ss ad).
+Proof. exact strict_agrees. Qed.
+
+(* The consequence the property draws: in an accepted function, every write and
+   every address-of goes through a pointer, or targets a variable the function
+   declared itself (or a mutable variable that is not one of its parameters:
+   the analyzer's table is never cleared; resolution ids are unique). *)
+Theorem C08_callee_can_only_write_through_pointers : forall v ps b v',
+  Forall (fun p => p_type p <> None) ps ->
+  mut_decl v (DFunction ps (Some b)) = (v', []) ->
+  Forall (fun st =>
+            let '(vs, is_assignment, r) := st in
+            forall x, r_base r = Some x ->
+              (is_assignment || N.ltb 0 (r_ad r)) = true ->
+              crosses_pointer (r_steps r) = true
+              \/ In (x, true) (declared_vars_list (fb_statements b))
+              \/ (~ In (Some x) (map p_name ps) /\ lookup v x = Some true))
+         (body_sites (declare_params v ps) b).
+Proof. exact callee_can_only_write_through_pointers. Qed.
+
+Print Assumptions C08_assignment_iff.
+Print Assumptions C08_assignment_complete.
+Print Assumptions C08_params_are_immutable.
+Print Assumptions C08_constant_is_immutable.
+Print Assumptions C08_param_write_needs_pointer.
+Print Assumptions C08_view_is_readonly_typed.
+Print Assumptions C08_address_of_immutable_rejected.
+Print Assumptions C08_no_aggregate_copy.
+Print Assumptions C08_declaration_copy_rejected.
+Print Assumptions C08_assignment_copy_rejected.
+Print Assumptions C08_return_copy_rejected.
+Print Assumptions C08_accepted_call_types_match.
+Print Assumptions C08_pointer_parameter_needs_address.
+Print Assumptions C08_function_sound.
+Print Assumptions C08_strict_agrees.
+Print Assumptions C08_callee_can_only_write_through_pointers.
